@@ -96,7 +96,12 @@ META = {
         "R7 rule lookups: a test '<rule>' in md.get_active_rules()[<chain>] names a rule that markdown-it or a configured plugin "
         "registers on that chain (catalogue read from the library sources); a rule looked up in the wrong chain is a constant test. "
         "R8 input limits: a per-line limit that the docutils front end checks on the document text (settings.line_length_limit) "
-        "is also consulted by the include mock for the text of an included file (today it is not: known finding)."
+        "is also consulted by the include mock for the text of an included file (today it is not: known finding). "
+        "R1 also reads the DEFAULT of the front-matter parameter for callers that leave it out (a truthy default makes every such "
+        "caller - substitution, div - accept front matter). "
+        "R9 cut order: the include mock selects :start-after: / :end-before: in one loop over the option names, each pass searching "
+        "the text as cut so far; the element selecting the cut of the beginning precedes every element selecting the cut of the end, "
+        "so that the end text is looked for after the start text (as docutils' Include does)."
     ),
     "not_decided": (
         "Node-for-node equality of render(W(X)) and render(X) (needs the trees). Known to fail by construction and NOT reported: "
@@ -739,7 +744,19 @@ def r1_one_engine(corpus: Corpus, rep: Report, tier: str):
         for pn in sorted(allow_params):
             a_ = m_.get(ip.index(pn)) if pn in ip else None
             a_ = a_ if a_ is not None else m_.get(pn)
-            if a_ is None or (isinstance(a_, ast.Constant) and not a_.value):
+            if a_ is None:
+                # the caller leaves the parameter out: the value is the parameter's default
+                if any(k_.arg is None for k_ in call.keywords) or any(isinstance(x_, ast.Starred) for x_ in call.args):
+                    rep.error("C06.R1", f"{fi.module.site(call)}: cannot tell whether `{pn}` is given (star arguments)")
+                    continue
+                a_ = _param_default(nrt, pn)
+                if a_ is None:
+                    rep.error("C06.R1", f"{fi.module.site(call)}: `{pn}` is not given and has no default")
+                    continue
+                if not isinstance(a_, ast.Constant):
+                    rep.error("C06.R1", f"{nrt.site()}: the default of `{pn}` is not a literal (`{short(a_, 40)}`)")
+                    continue
+            if isinstance(a_, ast.Constant) and not a_.value:
                 continue
             k = f"{fi.fq}|{pn} passed only for the text of a file"
             is_read_ = lambda x: isinstance(x, ast.Call) and isinstance(x.func, ast.Attribute) and x.func.attr in ("read_text", "read", "read_bytes")
@@ -1125,6 +1142,19 @@ def _start_cut_options(fi: FunctionInfo, is_read) -> list[tuple[str, ast.AST, Fu
                     seen.add(o)
                     out.append((o, n, f))
     return out
+
+
+def _param_default(fi: FunctionInfo, pname: str) -> ast.expr | None:
+    """The default expression of parameter ``pname`` of ``fi`` (None when it has none)."""
+    a = fi.node.args
+    pos = list(a.posonlyargs) + list(a.args)
+    for p, d in zip(pos[len(pos) - len(a.defaults):], a.defaults):
+        if p.arg == pname:
+            return d
+    for p, d in zip(a.kwonlyargs, a.kw_defaults):
+        if p.arg == pname:
+            return d
+    return None
 
 
 def callers_nrt_list(g, nrt: FunctionInfo) -> list[tuple[FunctionInfo, ast.Call]]:
@@ -1745,6 +1775,7 @@ def r4_state_restored(corpus: Corpus, rep: Report, tier: str):
     cms: dict[str, FunctionInfo] = {}
     unprotected = []
     unknown_cm: list[ast.Call] = []
+    inline_ctx: list[tuple[FunctionInfo, ast.Call]] = []
 
     def collect(c: ast.Call, f: FunctionInfo, depth: int) -> None:
         around = [t for t, _ in _cm_functions_around(c, f, corpus) if any(_state_key(a.targets[0]) for a in t.local_nodes() if isinstance(a, ast.Assign) and len(a.targets) == 1)]
@@ -1752,6 +1783,15 @@ def r4_state_restored(corpus: Corpus, rep: Report, tier: str):
             cms[t.fq] = t
         if around:
             return
+        # the same save / set / try: render / finally: restore written in line (the generator's body inlined)
+        for a in ancestors(c):
+            if isinstance(a, (ast.FunctionDef, ast.AsyncFunctionDef, ast.Lambda)):
+                break
+            if isinstance(a, ast.Try) and a.finalbody and any(c is x for s_ in a.body for x in ast.walk(s_)) and any(
+                isinstance(x, ast.Assign) and len(x.targets) == 1 and _state_key(x.targets[0]) for s_ in a.finalbody for x in ast.walk(s_)
+            ):
+                inline_ctx.append((f, c))
+                return
         # the with-block may have moved into the helper that is called here
         helpers = [t for t in g.flat_targets(g.resolve_call(c, f)) if t.fq not in (rtok.fq, nrt.fq)]
         inner_calls = [(c2, h) for h in helpers for c2 in _fn_calls(h) if any(t.fq == rtok.fq or rtok.fq in g.reachable([t], stop=lambda x: x.fq in (rtok.fq, nrt.fq)) for t in g.flat_targets(g.resolve_call(c2, h)))]
@@ -1771,36 +1811,49 @@ def r4_state_restored(corpus: Corpus, rep: Report, tier: str):
     k = f"{nrt.fq}|_render_tokens runs inside the restoring context"
     if unknown_cm and not unprotected:
         rep.error("C06.R4", f"{nrt.module.site(unknown_cm[0])}: the context manager entered around the nested render could not be resolved to a package function")
-    elif unprotected or not cms:
+    elif unprotected or not (cms or inline_ctx):
         rep.violation("C06.R4", k, nrt.site(), "the nested tokens are rendered outside a state-restoring context manager: heading offset / level map / temp root leak into the rest of the document")
     else:
-        rep.ok("C06.R4", k, nrt.module.site(rt_calls[0]), ", ".join(sorted(t.qualname for t in cms.values())))
-    if len(cms) > 1:
-        raise Unsupported(f"nested_render_text: {len(cms)} restoring context managers around the render call")
+        rep.ok("C06.R4", k, nrt.module.site(rt_calls[0]), ", ".join(sorted(t.qualname for t in cms.values())) or "try/finally that restores the state")
+    if len(cms) + len(inline_ctx) > 1:
+        raise Unsupported(f"nested_render_text: {len(cms) + len(inline_ctx)} restoring contexts around the render call")
     if cms:
         _r4_restore_pairs(rep, next(iter(cms.values())))
+    elif inline_ctx:
+        _r4_restore_pairs(rep, inline_ctx[0][0], pivot=inline_ctx[0][1])
 
     _r4_markers(corpus, rep)
     _r4_include(corpus, rep)
     rep.expect_min("C06.R4", 12, "three _restore pairs, the with-block, five swaps in the include mock, marker removal/key frame for include and substitution")
 
 
-def _r4_restore_pairs(rep: Report, rs: FunctionInfo) -> None:
-    """Save / set / yield / restore pairing inside the context manager of nested_render_text."""
+def _r4_restore_pairs(rep: Report, rs: FunctionInfo, pivot: ast.AST | None = None) -> None:
+    """Save / set / yield / restore pairing inside the context manager of nested_render_text - or, with ``pivot``
+    (the render call inside a try/finally of ``rs``), the same pairing written in line around that call."""
     cfg = get_cfg(rs)
-    ys = [n for n in rs.local_nodes() if isinstance(n, ast.Yield)]
-    if len(ys) != 1:
-        raise Unsupported(f"{rs.qualname}: expected one yield")
-    yst = cfg.stmt_of(ys[0])
+    if pivot is None:
+        ys = [n for n in rs.local_nodes() if isinstance(n, ast.Yield)]
+        if len(ys) != 1:
+            raise Unsupported(f"{rs.qualname}: expected one yield")
+        yst = cfg.stmt_of(ys[0])
+    else:
+        yst = cfg.stmt_of(pivot)
     after_set = cfg.reachable_from(yst)
     assigns = [n for n in rs.local_nodes() if isinstance(n, ast.Assign) and len(n.targets) == 1]
     pre = [a for a in assigns if a not in after_set and yst in cfg.reachable_from(a)]
     post = [a for a in assigns if a in after_set and a is not yst]
     saves = {a.targets[0].id: (_state_key(a.value), a) for a in pre if isinstance(a.targets[0], ast.Name) and _state_key(a.value)}
+    if pivot is not None:
+        # in line, the function also reads state into locals for its own use: a local is a save only if it is read
+        # again after the render (every changed piece of state is still required to have one, below)
+        read_after = {x.id for st_ in after_set if isinstance(st_, ast.stmt) and st_ is not yst for x in ast.walk(st_) if isinstance(x, ast.Name) and isinstance(x.ctx, ast.Load)}
+        saves = {n_: sv_ for n_, sv_ in saves.items() if n_ in read_after}
     writes = [(_state_key(a.targets[0]), a) for a in pre if not isinstance(a.targets[0], ast.Name) and _state_key(a.targets[0])]
     restores = [(_state_key(a.targets[0]), a) for a in post if _state_key(a.targets[0])]
     for a in pre + post:
         t = a.targets[0]
+        if pivot is not None and _root_name(t) != "self":
+            continue  # in line, the function also fills local objects (tokens): not renderer state
         if not isinstance(t, ast.Name) and _state_key(t) is None:
             rep.error("C06.R4", f"{rs.module.site(a)}: store `{short(a, 60)}` in {rs.qualname} not understood")
 
@@ -3406,7 +3459,167 @@ def r8_input_limits(corpus: Corpus, rep: Report, tier: str):
             )
 
 
-RULES = [r1_one_engine, r2_sibling_fences, r3_node_context, r4_state_restored, r5_result_fields, r6_text_conserved, r7_rule_lookups, r8_input_limits]
+SEARCH_METHODS = {"find", "index", "rfind", "rindex", "partition", "rpartition", "split", "rsplit", "search", "match"}
+
+
+def _loop_selection(cfg, st, var: str, elts: list[str]) -> set[int] | None:
+    """Indices of the elements of the iterated literal for which statement ``st`` of the loop body runs, from the
+    guards of ``st`` that compare the loop variable with a string literal; None when a guard reads the loop variable
+    in any other way."""
+    sel = set(range(len(elts)))
+    for t, pol in cfg.guards(st):
+        if not any(isinstance(x, ast.Name) and x.id == var for x in ast.walk(t)):
+            continue
+        if not (isinstance(t, ast.Compare) and len(t.ops) == 1 and isinstance(t.ops[0], (ast.Eq, ast.NotEq))):
+            return None
+        sides = [t.left, t.comparators[0]]
+        const = next((s for s in sides if isinstance(s, ast.Constant) and isinstance(s.value, str)), None)
+        name = next((s for s in sides if isinstance(s, ast.Name) and s.id == var), None)
+        if const is None or name is None:
+            return None
+        eq = pol if isinstance(t.ops[0], ast.Eq) else not pol
+        sel &= {i for i, e in enumerate(elts) if (e == const.value) == eq}
+    return sel
+
+
+@rule("C06.R9")
+def r9_cut_order(corpus: Corpus, rep: Report, tier: str):
+    _use(corpus)
+    rep.rule(
+        "C06.R9",
+        "when the include mock selects part of the file with one loop over the option names, each pass searching the text as cut so far, "
+        "the pass that cuts the beginning off runs before every pass that cuts the end off (the end text is looked for after the start text)",
+    )
+    inc = corpus.func("mocking:MockIncludeDirective.run")
+    owner = _owner_class(inc)
+    if owner is None:
+        raise Unsupported("the include mock's run() is not a method")
+    n_judged = 0
+    for f in sorted(owner.methods.values(), key=lambda x: x.fq):
+        loops = [n for n in f.local_nodes() if isinstance(n, ast.For)]
+        if not loops:
+            continue
+        cfg = get_cfg(f)
+        for loop in loops:
+            if not (isinstance(loop.target, ast.Name) and isinstance(loop.iter, (ast.List, ast.Tuple)) and loop.iter.elts and all(isinstance(e, ast.Constant) and isinstance(e.value, str) for e in loop.iter.elts)):
+                continue
+            var = loop.target.id
+            elts = [e.value for e in loop.iter.elts]
+            body_nodes = [x for s in loop.body for x in ast.walk(s)]
+            heads: dict[str, list[ast.stmt]] = {}
+            tails: dict[str, list[ast.stmt]] = {}
+            for st in body_nodes:
+                if not (isinstance(st, ast.Assign) and len(st.targets) == 1 and isinstance(st.targets[0], ast.Name)):
+                    continue
+                v = st.value
+                if not (isinstance(v, ast.Subscript) and isinstance(v.slice, ast.Slice) and isinstance(v.value, ast.Name) and v.value.id == st.targets[0].id and v.slice.step is None):
+                    continue
+                lo, up = v.slice.lower, v.slice.upper
+                lo_none = lo is None or (isinstance(lo, ast.Constant) and not lo.value)
+                if not lo_none and up is None:
+                    heads.setdefault(v.value.id, []).append(st)
+                elif lo_none and up is not None:
+                    tails.setdefault(v.value.id, []).append(st)
+            for text in sorted(set(heads) & set(tails)):
+                k = f"{f.fq}|the cut of the beginning of `{text}` runs in an earlier pass than the cut of its end"
+                site = f.module.site(loop)
+                searched = any(
+                    isinstance(x, ast.Call) and isinstance(x.func, ast.Attribute) and x.func.attr in SEARCH_METHODS
+                    and (any(isinstance(y, ast.Name) and y.id == text for y in ast.walk(x.func.value)) or any(isinstance(y, ast.Name) and y.id == text for a in x.args for y in ast.walk(a)))
+                    for x in body_nodes
+                )
+                if not searched:
+                    rep.error("C06.R9", f"{site}: `{text}` is cut at both ends in this loop but is not searched inside it: the order of the passes cannot be judged")
+                    continue
+                hsel: set[int] = set()
+                tsel: set[int] = set()
+                unknown = False
+                for sts, acc in ((heads[text], hsel), (tails[text], tsel)):
+                    for st in sts:
+                        s_ = _loop_selection(cfg, st, var, elts)
+                        if s_ is None:
+                            unknown = True
+                        else:
+                            acc |= s_
+                if unknown or not hsel or not tsel or (hsel & tsel):
+                    rep.error("C06.R9", f"{site}: cannot tell which elements of `{short(loop.iter, 50)}` select the cut of the beginning / of the end of `{text}`")
+                    continue
+                n_judged += 1
+                if max(hsel) < min(tsel):
+                    rep.ok("C06.R9", k, site, f"{elts[max(hsel)]!r} precedes {elts[min(tsel)]!r} in `{short(loop.iter, 50)}`")
+                else:
+                    rep.violation(
+                        "C06.R9",
+                        k,
+                        site,
+                        f"`{short(loop.iter, 50)}`: the pass for {elts[min(tsel)]!r} cuts the end of `{text}` before the pass for {elts[max(hsel)]!r} cuts its beginning, so the end text is searched "
+                        "from the top of the file instead of after the start text: when it also occurs at or before the start text the selection is empty or wrong ('text not found') "
+                        "although the same snippet written in place renders",
+                    )
+    if n_judged == 0:
+        # the same two cuts written as consecutive statements (the loop unrolled): the search that bounds the cut of the
+        # end must come after the cut of the beginning, and never before it
+        for f in sorted(owner.methods.values(), key=lambda x: x.fq):
+            cfg = get_cfg(f)
+
+            def searches(e: ast.AST, use_stmt, text: str, depth: int = 0) -> list[ast.stmt]:
+                """statements binding a name that ``e`` (read at ``use_stmt``) derives from to a call that is given ``text``"""
+                out_: list[ast.stmt] = []
+                for x in ast.walk(e):
+                    if not (isinstance(x, ast.Name) and x.id != text and x.id not in f.params):
+                        continue
+                    r = _reaching_def(f, x.id, use_stmt)
+                    if r is None:
+                        continue
+                    st_, v_ = r
+                    if any(isinstance(c_, ast.Call) and any(isinstance(y, ast.Name) and y.id == text for y in ast.walk(c_)) for c_ in ast.walk(v_)):
+                        out_.append(st_)
+                    elif depth < 3:
+                        out_ += searches(v_, st_, text, depth + 1)
+                return out_
+
+            heads2: dict[str, list] = {}
+            tails2: dict[str, list] = {}
+            for st in f.local_nodes():
+                if not (isinstance(st, ast.Assign) and len(st.targets) == 1 and isinstance(st.targets[0], ast.Name)):
+                    continue
+                v = st.value
+                if not (isinstance(v, ast.Subscript) and isinstance(v.slice, ast.Slice) and isinstance(v.value, ast.Name) and v.value.id == st.targets[0].id and v.slice.step is None):
+                    continue
+                if st in cfg.loops or any(isinstance(a, (ast.For, ast.While)) for a in ancestors(st)):
+                    continue
+                lo, up = v.slice.lower, v.slice.upper
+                lo_none = lo is None or (isinstance(lo, ast.Constant) and not lo.value)
+                if not lo_none and up is None:
+                    ss = searches(lo, st, v.value.id)
+                    if ss:
+                        heads2.setdefault(v.value.id, []).append((st, ss))
+                elif lo_none and up is not None:
+                    ss = searches(up, st, v.value.id)
+                    if ss:
+                        tails2.setdefault(v.value.id, []).append((st, ss))
+            for text in sorted(set(heads2) & set(tails2)):
+                if len(heads2[text]) != 1 or len(tails2[text]) != 1:
+                    continue  # several cuts at one end: not a shape this rule decides
+                (h, _hs), (t, ts) = heads2[text][0], tails2[text][0]
+                k = f"{f.fq}|the cut of the beginning of `{text}` runs before the search that bounds the cut of its end"
+                after_h = cfg.reachable_from(h)
+                if all(s_ in after_h for s_ in ts) and not any(h in cfg.reachable_from(s_) for s_ in ts):
+                    n_judged += 1
+                    rep.ok("C06.R9", k, f.module.site(t), f"`{short(ts[0], 50)}` follows `{short(h, 50)}`")
+                elif h in cfg.reachable_from(t) and not any(s_ in after_h for s_ in ts):
+                    n_judged += 1
+                    rep.violation(
+                        "C06.R9",
+                        k,
+                        f.module.site(t),
+                        f"`{short(t, 50)}` cuts the end of `{text}` at a position found (`{short(ts[0], 50)}`) before `{short(h, 50)}` cut its beginning: the end text is searched from the top of the file "
+                        "instead of after the start text, so when it also occurs at or before the start text the selection is empty or wrong although the same snippet written in place renders",
+                    )
+    rep.expect_min("C06.R9", 1, "MockIncludeDirective selects :start-after: / :end-before: with one loop over the two option names (hand-checked)")
+
+
+RULES = [r1_one_engine, r2_sibling_fences, r3_node_context, r4_state_restored, r5_result_fields, r6_text_conserved, r7_rule_lookups, r8_input_limits, r9_cut_order]
 
 
 # ---------------------------------------------------------------------------
@@ -3852,4 +4065,27 @@ def mutants(corpus: Corpus):
         add("c06-substitution-finalize-hook", "C06.R6", base, e, inner[:-1].rstrip().rstrip(",") + ', finalize=lambda v: "" if v is None else v)', "template engine")
     else:
         out.append(("c06-substitution-autoescape", "jinja2.Environment(...) not found"))
+
+    # ---- seed round 10
+    # the front-matter parameter made opt-out: callers that leave it out (substitution, div) would accept front matter
+    c = find_node(inc, lambda n: is_call(n, "nested_render_text"))
+    afm = next((k_ for k_ in c.keywords if k_.arg and "front" in k_.arg), None) if c is not None else None
+    dflt = _param_default(nrt, afm.arg) if afm is not None else None
+    add("c06-front-matter-parameter-defaults-to-true", "C06.R1", base, dflt, "True", "passed only for the text of a file")
+    # R9: the two text cuts of the include mock run in the other order
+    inc_cls = _owner_class(inc)
+    lp = lf = None
+    for f_ in sorted(inc_cls.methods.values(), key=lambda x: x.fq) if inc_cls is not None else []:
+        lp = find_node(f_, lambda n: isinstance(n, ast.For) and isinstance(n.iter, (ast.List, ast.Tuple)) and len(n.iter.elts) == 2 and all(isinstance(e_, ast.Constant) and isinstance(e_.value, str) for e_ in n.iter.elts) and any(isinstance(x, ast.Subscript) and isinstance(x.slice, ast.Slice) for x in ast.walk(n)))
+        if lp is not None:
+            lf = f_
+            break
+    if lp is not None:
+        lm = lf.module
+        add("c06-include-cuts-end-before-start", "C06.R9", lm, lp.iter, "[" + ", ".join(_seg(lm, e_) for e_ in reversed(lp.iter.elts)) + "]", "runs in an earlier pass")
+        cmp_ = next((x for x in ast.walk(lp) if isinstance(x, ast.If) and isinstance(x.test, ast.Compare) and isinstance(x.test.left, ast.Name) and x.test.left.id == lp.target.id and isinstance(x.test.comparators[0], ast.Constant)), None)
+        other = next((e_ for e_ in lp.iter.elts if cmp_ is not None and e_.value != cmp_.test.comparators[0].value), None)
+        add("c06-include-cut-branches-swapped", "C06.R9", lm, cmp_.test.comparators[0] if cmp_ is not None and other is not None else None, repr(other.value) if other is not None else "", "runs in an earlier pass")
+    else:
+        out.append(("c06-include-cuts-end-before-start", "the loop over the two cut options was not found"))
     return out
